@@ -477,7 +477,22 @@ func checkNameRanges(c *Ctx, info *types.Info, body *ast.BlockStmt, where string
 				a0 := nodeText(c.fset, call.Args[0])
 				a1 := nodeText(c.fset, call.Args[1])
 				wantLen := "len(" + owner + ".Name)"
+				// … or the start is the position taken in the statement just before the name parser ran
+				takenBefore := false
+				if id, isID := ast.Unparen(call.Args[0]).(*ast.Ident); isID && i >= 2 {
+					if das, ok := list[i-2].(*ast.AssignStmt); ok && len(das.Lhs) == 1 && len(das.Rhs) == 1 {
+						if lid, ok := das.Lhs[0].(*ast.Ident); ok && info.ObjectOf(lid) == info.ObjectOf(id) && info.ObjectOf(id) != nil {
+							if pc, ok := ast.Unparen(das.Rhs[0]).(*ast.CallExpr); ok && len(pc.Args) == 0 {
+								if pf := calleeOf(info, pc); pf != nil && fullName(pf) == "github.com/a-h/parse.(Input).Position" {
+									takenBefore = true
+								}
+							}
+						}
+					}
+				}
 				if strings.HasSuffix(a1, ".Position()") && strings.Contains(a0, ".PositionAt(") && strings.Contains(a0, ".Index() - "+wantLen) {
+					good = true
+				} else if strings.HasSuffix(a1, ".Position()") && takenBefore {
 					good = true
 				} else {
 					why = "the range is NewRange(" + a0 + ", " + a1 + "), expected PositionAt(Index() - " + wantLen + ") … Position()"
